@@ -37,7 +37,7 @@ Theorem C06_tokens_returned : forall g cfg rank, wf_graph g rank -> 0 < c_k cfg 
 Proof. exact tokens_at_exit. Qed.
 Print Assumptions C06_tokens_returned.
 
-(* (interrupt path: Cleanup -> Abort returns the slots of the killed commands -- this is the real
+(* (interrupt path: Cleanup -> the runner's abort returns the slots of the killed commands -- the real
    runner's ClearJobTokens, which the model takes as given) *)
 Theorem C06_tokens_returned_interrupt : forall g cfg rank, wf_graph g rank -> 0 < c_k cfg -> 0 < c_j cfg ->
   forall s s', reachable g cfg s -> step g cfg s EvInterrupt = Some s' ->
